@@ -10,7 +10,7 @@
      k=6 Python port of sem_out <> Coq's sem_out on the observed AST
      k=7 observed AST accepts an inbound route       k=8 originated networks <> requested
      k=9 (informational, not a mismatch) the generated session set or a probe route is outside the premises
-         wf_sessions / route_ok of C14_frr_out_exact *)
+         wf_sessions / route_ok of C14_frr_out_exact or canonical_texts of C14_text_match_is_binary_match *)
 From Coq Require Import List NArith Bool String.
 From Verif Require Export Model.FrrSpec.
 Import ListNotations.
@@ -65,7 +65,7 @@ Definition codes (c : fcase) : list N :=
   let k (b : bool) (n : N) := if b then [] else [(10 * fc_id c + n)%N] in
   k (opt_eqb frr_eqb r (fc_obs c)) 1%N ++
   k (opt_eqb frr_eqb (render (fc_Sperm c)) r) 2%N ++
-  k (wf_sessions_b (fc_S c) && forallb (route_ok_b (fc_S c)) (fc_routes c)) 9%N ++
+  k (wf_sessions_b (fc_S c) && forallb (route_ok_b (fc_S c)) (fc_routes c) && forallb (canonical_texts_b (fc_S c)) (fc_routes c)) 9%N ++
   match fc_obs c with
   | None => []
   | Some o =>
